@@ -68,7 +68,8 @@ def parseCodecOf (s : String) : Nat → Option Nat :=
 def ctorOutcome (old : Bool) (mk : Markup) (dammitSome : Bool) (tok : String) (orig : Option (Nat → Dec1))
     (names : List PStr) : String :=
   let tokErr : Option Err :=
-    if tok == "ok" then none else if tok == "assert" then some .assertionError else some (.other 0)
+    if tok == "ok" then none else if tok == "assert" then some .assertionError
+    else if tok == "value" then some .valueError else some (.other 0)
   let p : Parser Unit :=
     { tokenize := fun _ => (names.map Event.charref, tokErr)
       applyData := fun _ o => o
@@ -80,7 +81,7 @@ def ctorOutcome (old : Bool) (mk : Markup) (dammitSome : Bool) (tok : String) (o
   let oldErr : Option Err :=
     if old then names.findSome? fun n => match handleCharrefOld orig n with | .error e => some e | .ok _ => none
     else none
-  let m : Machine Unit := ⟨fun _ => [], fun _ => [], soupFeed p, []⟩
+  let m : Machine Unit := ⟨fun _ => [], fun _ => [], if old then soupFeedOld p else soupFeed p, []⟩
   let dres : DammitResult := if dammitSome then ⟨some [], none, false⟩ else ⟨none, none, false⟩
   let r := construct m (if old then heuristicsOld else heuristics) (prepareMarkup (fun _ => dres) (fun _ => none))
     (fun _ => ()) mk
